@@ -114,7 +114,12 @@ func genOperators(c *core.Check, emit func(Program) bool) {
 		}
 	}
 	// `in` inside for-init
-	for _, e := range []string{"for(var i=(a in b);c;){h1(i);break}", "for(var i=(a in b)?1:2;c;){h1(i);break}", "for(i=(a in b);c;){h1(i);break}", "for(var i=a||(b in c);;){h1(i);break}", "for(var i=[a in b];;){h1(i);break}", "for(var i=h1(a in b);;){break}", "for(var i=()=>a in b;;){h1(i());break}", "for(let i=(a in b),j;c;){h1(i);break}", "for((a in b)?1:2;c;){h1(1);break}", "for(var i in (a in b)?{p:1}:{q:1})h1(i)", "for(var i of (a,[b]))h1(i)", "for(var i of [(a,b)])h1(i)"} {
+	for _, e := range []string{"for(var i=(a in b);c;){h1(i);break}", "for(var i=(a in b)?1:2;c;){h1(i);break}", "for(i=(a in b);c;){h1(i);break}", "for(var i=a||(b in c);;){h1(i);break}", "for(var i=[a in b];;){h1(i);break}", "for(var i=h1(a in b);;){break}", "for(var i=()=>a in b;;){h1(i());break}", "for(let i=(a in b),j;c;){h1(i);break}", "for((a in b)?1:2;c;){h1(1);break}", "for(var i in (a in b)?{p:1}:{q:1})h1(i)", "for(var i of (a,[b]))h1(i)", "for(var i of [(a,b)])h1(i)",
+		// `in` below an arrow body, a function, a method, a template or a member bracket inside a for-initializer (also when the
+		// initializer is created by merging a preceding declaration into the loop)
+		"for(var i=()=>(a in b);;){h1(i());break}", "var f=k=>k in b;for(var i=0;i<1;i++)h1(f(a))", "var f=(k=>k in b),g=1;for(;g;g--)h1(f(a))", "for(var i=function(){return a in b};;){h1(i());break}", "for(var i={m(){return a in b}};;){h1(i.m());break}",
+		"for(var i=`${a in b}`;;){h1(i);break}", "for(var i=c[a in b];;){h1(i);break}", "for(var i=((a in b)in c);;){h1(i);break}", "for(var i=(x=>(x in b))(a);;){h1(i);break}", "var f=async k=>k in b;for(var i=0;i<1;i++)h1(typeof f)", "for(var i=k=>{return k in b};;){h1(i(a));break}",
+		"for(var i=a?(b in c):0;;){h1(i);break}", "for(var i=!(a in b);;){h1(i);break}", "for(var i=(a in b)+1;;){h1(i);break}", "var g=(a in b);for(;c;){h1(g);break}", "var g=(a in b),k;for(k=0;k<1;k++)h1(g)"} {
 		if !emit(Program{fn(pre + e), "fn", vectorsOver([]string{"0", "1", "obj", "a"}, 3)}) {
 			return
 		}
